@@ -8,7 +8,7 @@
 from pymbolic.mapper.stringifier import (
     PREC_UNARY, PREC_LOGICAL_AND, PREC_LOGICAL_OR, PREC_COMPARISON, PREC_NONE
 )
-from pymbolic.primitives import FloorDiv, Remainder
+from pymbolic.primitives import FloorDiv, Remainder, LogicalNot
 
 from loki.backend.pprint import Stringifier
 from loki.backend.style import FortranStyle
@@ -42,16 +42,22 @@ class FCodeMapper(LokiStringifyMapper):
         return '.true.' if expr.value else '.false.'
 
     def map_float_literal(self, expr, enclosing_prec, *args, **kwargs):
+        result = str(expr.value)
         if expr.kind is not None:
-            return f'{str(expr.value)}_{str(expr.kind)}'
-        return str(expr.value)
+            result = f'{result}_{str(expr.kind)}'
+        if result.startswith('-'):
+            # A signed literal cannot be the operand of an arithmetic operator
+            return self.parenthesize_if_needed(result, enclosing_prec, PREC_COMPARISON)
+        return result
 
     map_int_literal = map_float_literal
 
     def map_logical_not(self, expr, enclosing_prec, *args, **kwargs):
-        return self.parenthesize_if_needed(
-            ".not." + self.rec(expr.child, PREC_UNARY, *args, **kwargs),
-            enclosing_prec, PREC_UNARY)
+        child = self.rec(expr.child, PREC_UNARY, *args, **kwargs)
+        if isinstance(expr.child, LogicalNot):
+            # The operand of .not. cannot start with another .not.
+            child = f'({child})'
+        return self.parenthesize_if_needed(".not." + child, enclosing_prec, PREC_UNARY)
 
     def map_logical_and(self, expr, enclosing_prec, *args, **kwargs):
         return self.parenthesize_if_needed(
